@@ -653,6 +653,24 @@ class PEval:
         if k == "Const":
             if str(e.get("def", "")).startswith("log::"):
                 return Struct("#log", {})     # the logging facade: levels are never observed by a property
+            cdef = str(e.get("def", ""))
+            m_ = re.fullmatch(r"core::(?:f64|f32)::(?:<impl f(?:64|32)>::)?([A-Z_0-9]+)", cdef)
+            if m_ and ("f64" in cdef):
+                import sys as _sys
+                import math as _math
+                F64 = {"MIN_POSITIVE": _sys.float_info.min, "MAX": _sys.float_info.max, "MIN": -_sys.float_info.max, "EPSILON": _sys.float_info.epsilon,
+                       "INFINITY": _math.inf, "NEG_INFINITY": -_math.inf, "NAN": _math.nan, "DIGITS": 15, "MANTISSA_DIGITS": 53, "RADIX": 2,
+                       "MAX_EXP": 1024, "MIN_EXP": -1021, "MAX_10_EXP": 308, "MIN_10_EXP": -307}
+                if m_.group(1) in F64:
+                    return F64[m_.group(1)]
+            m_ = re.fullmatch(r"core::num::<impl ([iu])(8|16|32|64|128|size)>::(MAX|MIN|BITS)", cdef)
+            if m_:
+                bits = 64 if m_.group(2) == "size" else int(m_.group(2))
+                if m_.group(3) == "BITS":
+                    return bits
+                if m_.group(1) == "u":
+                    return (1 << bits) - 1 if m_.group(3) == "MAX" else 0
+                return (1 << (bits - 1)) - 1 if m_.group(3) == "MAX" else -(1 << (bits - 1))
             c = self.lib.consts.get(e.get("def", "")) if hasattr(self.lib, "consts") else None
             if c is not None and c.get("thir") and c["thir"].get("body"):
                 try:
@@ -1271,6 +1289,11 @@ class PEval:
             if isinstance(a0, Enum) and a0.adt == OPTION:
                 return Iter([a0.fields.get("0", UNKNOWN)] if a0.variant == "Some" else [])
             return a0
+        if fname == "to_string" and len(args) == 1 and isinstance(a0, float):
+            from . import floatfmt
+            return floatfmt.display(a0)
+        if not args and path in ("alloc::string::String::new", "<alloc::string::String as core::default::Default>::default"):
+            return ""
         if fname == "to_string" and len(args) == 1 and isinstance(a0, int) and not isinstance(a0, bool):
             # Display of an integer / a char: the static type of the receiver tells which
             t0 = ""
@@ -1362,6 +1385,26 @@ class PEval:
                 return a0 if a0.variant == "Ok" else Enum(RESULT, "Err", {"0": self.apply(args[1], [inner], depth)})
             if fname == "and_then" and len(args) == 2:
                 return self.apply(args[1], [inner], depth) if a0.variant == "Ok" else a0
+            if fname == "unwrap_or" and len(args) == 2:
+                return inner if a0.variant == "Ok" else args[1]
+            if fname == "unwrap_or_else" and len(args) == 2:
+                return inner if a0.variant == "Ok" else self.apply(args[1], [inner], depth)
+            if fname == "err":
+                return some(inner) if a0.variant == "Err" else NONE
+            if fname in ("is_ok_and", "is_err_and") and len(args) == 2:
+                if a0.variant != ("Ok" if fname == "is_ok_and" else "Err"):
+                    return False
+                return self.truth(self.apply(args[1], [inner], depth))
+            if fname in ("map_or", "map_or_else") and len(args) == 3:
+                if a0.variant == "Ok":
+                    return self.apply(args[2], [inner], depth)
+                return args[1] if fname == "map_or" else self.apply(args[1], [inner], depth)
+            if fname == "or_else" and len(args) == 2:
+                return a0 if a0.variant == "Ok" else self.apply(args[1], [inner], depth)
+            if fname in ("unwrap_err", "expect_err") and a0.variant == "Err":
+                return inner
+            if fname in ("iter", "into_iter"):
+                return Iter([inner] if a0.variant == "Ok" else [])
             if fname == "unwrap_or_default" and a0.variant == "Ok":
                 return inner
         if fname == "branch" and isinstance(a0, Enum) and a0.adt == OPTION:
@@ -1482,6 +1525,16 @@ class PEval:
                     return NONE
                 r = self.truth(self.apply(args[1], [inner], depth))
                 return UNKNOWN if r is UNKNOWN else (a0 if r else NONE)
+            if fname == "map_or_else" and len(args) == 3:
+                return self.apply(args[2], [inner], depth) if a0.variant == "Some" else self.apply(args[1], [], depth)
+            if fname in ("is_none_or",) and len(args) == 2:
+                return True if a0.variant == "None" else self.truth(self.apply(args[1], [inner], depth))
+            if fname == "inspect" and len(args) == 2:
+                if a0.variant == "Some":
+                    self.apply(args[1], [inner], depth)
+                return a0
+            if fname in ("iter", "into_iter", "iter_mut"):
+                return Iter([inner] if a0.variant == "Some" else [])
             if fname == "map_or" and len(args) == 3:
                 return args[1] if a0.variant == "None" else self.apply(args[2], [inner], depth)
             if fname == "is_some_and" and len(args) == 2:
@@ -2072,6 +2125,10 @@ class PEval:
                 return Iter(a0.splitlines())
             if fname in ("is_char_boundary",) and len(args) == 2 and isinstance(args[1], int):
                 return True if a0.isascii() else self.unknown("char boundary in non-ASCII text")
+            if fname in ("replace", "replacen") and len(args) >= 3 and isinstance(txt(args[1]), str) and isinstance(txt(args[2]), str) and txt(args[1]):
+                if fname == "replacen" and len(args) == 4 and isinstance(args[3], int):
+                    return a0.replace(txt(args[1]), txt(args[2]), args[3])
+                return a0.replace(txt(args[1]), txt(args[2]))
             if len(args) == 2 and isinstance(txt(args[1]), str):
                 x = txt(args[1])
                 if fname == "starts_with":
